@@ -23,8 +23,13 @@ theorem range_injective {a b : Nat} (h : List.range a = List.range b) : a = b :=
 theorem nodup_map_of_inj {α β : Type} (f : α → β) (hf : ∀ a b, f a = f b → a = b) {l : List α} (h : l.Nodup) : (l.map f).Nodup :=
   List.Pairwise.map f (fun a b hab hfab => hab (hf a b hfab)) h
 
+theorem nodup_reverse' {α : Type} {l : List α} (h : l.Nodup) : l.reverse.Nodup := by
+  unfold List.Nodup at *
+  rw [List.pairwise_reverse]
+  exact h.imp (fun hab e => hab e.symm)
+
 theorem nodup_rollupSets (n : Nat) : (rollupSets n).Nodup :=
-  nodup_map_of_inj List.range (fun _ _ h => range_injective h) (List.nodup_reverse.mpr List.nodup_range)
+  nodup_map_of_inj List.range (fun _ _ h => range_injective h) (nodup_reverse' List.nodup_range)
 
 /-! ### CUBE -/
 
@@ -126,24 +131,26 @@ theorem groupingOf_nonneg (a : List Nat) (set : List Nat) : 0 ≤ groupingOf a s
 
 theorem groupingOf_lt (a : List Nat) (set : List Nat) : groupingOf a set < 2 ^ a.length := by
   have := (maskFrom_bounds set a 0 0 (by omega) (by simp)).2
+  rw [groupingOf_eq_maskFrom]
   simpa using this
 
 /-- bit `j` (counted from the most significant of `args.length` bits) of GROUPING(args) is 1 iff `args[j]` is absent from the set -/
 theorem groupingOf_bit (args set : List Nat) (j : Nat) (hj : j < args.length) :
     (groupingOf args set / 2 ^ (args.length - 1 - j)) % 2 = absentBit set args[j] := by
   have hsplit : args = args.take j ++ (args[j] :: args.drop (j + 1)) := by
-    rw [List.getElem_cons_drop_succ_eq_drop hj, List.take_append_drop]
+    rw [List.getElem_cons_drop hj, List.take_append_drop]
   have hlen : (args.drop (j + 1)).length = args.length - 1 - j := by simp; omega
   have e1 : groupingOf args set =
       (groupingOf (args.take j) set * 2 + absentBit set args[j]) * 2 ^ (args.length - 1 - j) + groupingOf (args.drop (j + 1)) set := by
-    conv => lhs; rw [hsplit]
-    rw [groupingOf_append, show args[j] :: args.drop (j + 1) = [args[j]] ++ args.drop (j + 1) from rfl, groupingOf_append, hlen]
     have h1 : groupingOf [args[j]] set = absentBit set args[j] := by simp [groupingOf, absentBit]
-    rw [h1]
-    simp only [List.length_append, List.length_singleton, hlen]
-    rw [Int.add_mul, Int.mul_assoc, ← Int.pow_succ', Int.add_assoc]
-    congr 2
-    omega
+    have h2 : groupingOf (args[j] :: args.drop (j + 1)) set =
+        absentBit set args[j] * 2 ^ (args.length - 1 - j) + groupingOf (args.drop (j + 1)) set := by
+      rw [show args[j] :: args.drop (j + 1) = [args[j]] ++ args.drop (j + 1) from rfl, groupingOf_append, hlen, h1]
+    have h3 : groupingOf args set = groupingOf (args.take j) set * 2 ^ ((args.length - 1 - j) + 1) +
+        groupingOf (args[j] :: args.drop (j + 1)) set := by
+      conv => lhs; rw [hsplit]
+      rw [groupingOf_append, List.length_cons, hlen]
+    rw [h3, h2, Int.pow_succ, Int.add_mul, Int.mul_assoc, Int.mul_comm 2, Int.add_assoc]
   have hlo0 := groupingOf_nonneg (args.drop (j + 1)) set
   have hlo1 := groupingOf_lt (args.drop (j + 1)) set
   rw [hlen] at hlo1
@@ -151,5 +158,306 @@ theorem groupingOf_bit (args set : List Nat) (j : Nat) (hj : j < args.length) :
   rw [e1, Int.add_comm, Int.add_mul_ediv_right _ _ (Int.ne_of_gt hpos), Int.ediv_eq_zero_of_lt hlo0 hlo1, Int.zero_add]
   have hb := absentBit_range set args[j]
   omega
+
+/-! ### generic list / Except plumbing -/
+
+theorem mapM_ok_map {α β : Type} (f : α → Except Err β) (g : α → β) : ∀ (l : List α), (∀ x, x ∈ l → f x = .ok (g x)) → l.mapM f = .ok (l.map g)
+  | [], _ => rfl
+  | x :: xs, h => by
+    have h1 := h x (by simp)
+    have h2 := mapM_ok_map f g xs (fun y hy => h y (by simp [hy]))
+    simp only [List.mapM_cons, h1, h2, List.map_cons]
+    rfl
+
+theorem ok_bind {α β : Type} (x : α) (f : α → Except Err β) : (Except.ok x >>= f) = f x := rfl
+
+theorem mapM_congr_mem {α β : Type} (f g : α → Except Err β) : ∀ (l : List α), (∀ x, x ∈ l → f x = g x) → l.mapM f = l.mapM g
+  | [], _ => rfl
+  | x :: xs, h => by
+    simp only [List.mapM_cons, h x (by simp), mapM_congr_mem f g xs (fun y hy => h y (by simp [hy]))]
+
+theorem mapM_map_arg {α β γ : Type} (f : β → Except Err γ) (g : α → β) : ∀ (l : List α), (l.map g).mapM f = l.mapM (fun x => f (g x))
+  | [] => rfl
+  | x :: xs => by simp only [List.map_cons, List.mapM_cons, mapM_map_arg f g xs]
+
+theorem mapM_then_map {α β γ : Type} (f : α → Except Err β) (post : β → γ) : ∀ (l : List α),
+    (do let t ← l.mapM f; pure (t.map post) : Except Err (List γ)) = l.mapM (fun x => do let y ← f x; pure (post y))
+  | [] => rfl
+  | x :: xs => by
+    have ih := mapM_then_map f post xs
+    simp only [List.mapM_cons]
+    cases hx : f x with
+    | error e => rfl
+    | ok y =>
+      cases hxs : xs.mapM f with
+      | error e =>
+        rw [hxs] at ih
+        have : xs.mapM (fun x => do let y ← f x; pure (post y)) = .error e := ih.symm
+        simp only [this]; rfl
+      | ok ys =>
+        rw [hxs] at ih
+        have : xs.mapM (fun x => do let y ← f x; pure (post y)) = .ok (ys.map post) := ih.symm
+        simp only [this]; rfl
+
+theorem any_congr_mem {α : Type} (p q : α → Bool) : ∀ (l : List α), (∀ x, x ∈ l → p x = q x) → l.any p = l.any q
+  | [], _ => rfl
+  | x :: xs, h => by
+    simp only [List.any_cons, h x (by simp), any_congr_mem p q xs (fun y hy => h y (by simp [hy]))]
+
+/-! ### positions of keys in a set -/
+
+theorem posOf_none (set : List Nat) (i : Nat) : posOf set i = none ↔ i ∉ set := by
+  induction set with
+  | nil => simp [posOf]
+  | cons x xs ih =>
+    simp only [posOf]
+    by_cases h : x = i
+    · simp [h]
+    · simp only [h, if_false, Option.map_eq_none_iff, ih, List.mem_cons, not_or]
+      exact ⟨fun h' => ⟨fun e => h e.symm, h'⟩, fun h' => h'.2⟩
+
+theorem posOf_some (set : List Nat) (i j : Nat) (h : posOf set i = some j) : set[j]? = some i := by
+  induction set generalizing j with
+  | nil => simp [posOf] at h
+  | cons x xs ih =>
+    simp only [posOf] at h
+    by_cases hx : x = i
+    · simp only [hx, if_true, Option.some.injEq] at h; subst h; simp [hx]
+    · simp only [hx, if_false, Option.map_eq_some_iff] at h
+      obtain ⟨k, hk, rfl⟩ := h
+      simpa using ih k hk
+
+theorem posOf_getElem (set : List Nat) (hn : set.Nodup) (j : Nat) (hj : j < set.length) : posOf set set[j] = some j := by
+  induction set generalizing j with
+  | nil => simp at hj
+  | cons x xs ih =>
+    have hx := List.nodup_cons.mp hn
+    cases j with
+    | zero => simp [posOf]
+    | succ k =>
+      have hk : k < xs.length := by simpa using hj
+      have hne : x ≠ xs[k] := fun e => hx.1 (e ▸ List.getElem_mem hk)
+      simp [posOf, hne, ih hx.2 k hk]
+
+/-- a set as the binder writes it for ROLLUP / CUBE / a duplicate-free GROUPING SETS entry -/
+def GoodSet (n : Nat) (set : List Nat) : Prop := set.Nodup ∧ ∀ i, i ∈ set → i < n
+
+def selKey (set : List Nat) (kv : Row) : Row := set.map fun i => kv.getD i .null
+def padAll (n : Nat) (set : List Nat) (kv : Row) : Row := (List.range n).map fun i => if set.contains i then kv.getD i .null else .null
+
+theorem padKey_selKey (n : Nat) (set : List Nat) (kv : Row) : padKey n set (selKey set kv) = padAll n set kv := by
+  simp only [padKey, padAll]
+  apply List.map_congr_left
+  intro i _
+  cases h : posOf set i with
+  | none =>
+    have : i ∉ set := (posOf_none set i).mp h
+    simp [this]
+  | some j =>
+    have hj := posOf_some set i j h
+    have hmem : i ∈ set := List.mem_of_getElem? hj
+    simp [selKey, hmem, List.getD_eq_getElem?_getD, List.getElem?_map, hj]
+
+theorem padKey_nil (n : Nat) (kv : Row) : padKey n [] kv = nulls n := by
+  simp only [padKey, posOf, nulls]
+  induction n with
+  | zero => rfl
+  | succ k ih => rw [List.range_succ, List.map_append, ih]; simp [List.replicate_succ']
+
+theorem padKey_injective (n : Nat) (set : List Nat) (hs : GoodSet n set) (x y : Row)
+    (hx : x.length = set.length) (hy : y.length = set.length) (h : padKey n set x = padKey n set y) : x = y := by
+  apply List.ext_getElem (by omega)
+  intro j hjx hjy
+  have hj : j < set.length := by omega
+  have hi : set[j] < n := hs.2 _ (List.getElem_mem hj)
+  have h1 := congrArg (fun l => l[set[j]]?) h
+  simp only [padKey, List.getElem?_map, List.getElem?_range hi, Option.map_some, posOf_getElem set hs.1 j hj] at h1
+  simpa [List.getD_eq_getElem?_getD, List.getElem?_eq_getElem hjx, List.getElem?_eq_getElem hjy] using h1
+
+/-! ### `groupBy` under an injective renaming of the keys -/
+
+def gstep (acc : List (Row × Table)) (kr : Row × Row) : List (Row × Table) :=
+  if acc.any (fun g => g.1 = kr.1) then acc.map (fun g => if g.1 = kr.1 then (g.1, g.2 ++ [kr.2]) else g)
+  else acc ++ [(kr.1, [kr.2])]
+
+theorem groupBy_eq_foldl (keyed : List (Row × Row)) : groupBy keyed = keyed.foldl gstep [] := rfl
+
+section
+variable (f : Row → Row) (P : Row → Prop) (hinj : ∀ a b, P a → P b → f a = f b → a = b)
+
+include hinj in
+theorem gstep_map (acc : List (Row × Table)) (k r : Row) (hacc : ∀ g, g ∈ acc → P g.1) (hk : P k) :
+    gstep (acc.map fun g => (f g.1, g.2)) (f k, r) = (gstep acc (k, r)).map fun g => (f g.1, g.2) := by
+  have hiff : ∀ g, g ∈ acc → (f g.1 = f k ↔ g.1 = k) := fun g hg => ⟨hinj _ _ (hacc g hg) hk, fun e => by rw [e]⟩
+  have hany : (acc.map fun g => (f g.1, g.2)).any (fun g => g.1 = f k) = acc.any (fun g => g.1 = k) := by
+    rw [List.any_map]
+    apply any_congr_mem
+    intro g hg
+    simp [hiff g hg]
+  simp only [gstep, hany]
+  split
+  · simp only [List.map_map]
+    apply List.map_congr_left
+    intro g hg
+    by_cases e : g.1 = k
+    · simp [e]
+    · have : ¬ f g.1 = f k := fun h' => e ((hiff g hg).mp h')
+      simp [e, this]
+  · simp
+
+theorem gstep_keys (acc : List (Row × Table)) (k r : Row) (hacc : ∀ g, g ∈ acc → P g.1) (hk : P k) :
+    ∀ g, g ∈ gstep acc (k, r) → P g.1 := by
+  intro g hg
+  simp only [gstep] at hg
+  split at hg
+  · simp only [List.mem_map] at hg
+    obtain ⟨g0, hg0, rfl⟩ := hg
+    split <;> exact hacc g0 hg0
+  · rcases List.mem_append.mp hg with hg | hg
+    · exact hacc g hg
+    · simp at hg; subst hg; exact hk
+
+theorem foldl_gstep_keys : ∀ (l : List (Row × Row)) (acc : List (Row × Table)), (∀ g, g ∈ acc → P g.1) → (∀ x, x ∈ l → P x.1) →
+    ∀ g, g ∈ l.foldl gstep acc → P g.1
+  | [], acc, hacc, _ => by simpa using hacc
+  | (k, r) :: xs, acc, hacc, hl => by
+    simp only [List.foldl_cons]
+    exact foldl_gstep_keys xs _ (gstep_keys P acc k r hacc (hl (k, r) (by simp))) (fun x hx => hl x (by simp [hx]))
+
+include hinj in
+theorem foldl_gstep_map : ∀ (l : List (Row × Row)) (acc : List (Row × Table)), (∀ g, g ∈ acc → P g.1) → (∀ x, x ∈ l → P x.1) →
+    (l.map fun x => (f x.1, x.2)).foldl gstep (acc.map fun g => (f g.1, g.2)) = (l.foldl gstep acc).map fun g => (f g.1, g.2)
+  | [], acc, _, _ => rfl
+  | (k, r) :: xs, acc, hacc, hl => by
+    have hk : P k := hl (k, r) (by simp)
+    simp only [List.map_cons, List.foldl_cons, gstep_map f P hinj acc k r hacc hk]
+    exact foldl_gstep_map xs _ (gstep_keys P acc k r hacc hk) (fun x hx => hl x (by simp [hx]))
+
+include hinj in
+theorem groupBy_map (l : List (Row × Row)) (hl : ∀ x, x ∈ l → P x.1) :
+    groupBy (l.map fun x => (f x.1, x.2)) = (groupBy l).map fun g => (f g.1, g.2) := by
+  simpa [groupBy_eq_foldl] using foldl_gstep_map f P hinj l [] (fun _ h => by simp at h) hl
+
+theorem groupBy_keys (l : List (Row × Row)) (hl : ∀ x, x ∈ l → P x.1) : ∀ g, g ∈ groupBy l → P g.1 := by
+  rw [groupBy_eq_foldl]
+  exact foldl_gstep_keys P l [] (fun _ h => by simp at h) hl
+end
+
+/-! ### `Spec.aggregateSets` = UNION ALL of one aggregate per set -/
+
+section desugar
+variable (cx : EvalCtx) (env : Env) (keys : List Expr) (aggs : List AggCall) (rows : Table)
+
+/-- the part of `Spec.aggregateSets` that belongs to one grouping set -/
+def specPart (set : List Nat) : Except Err Table := do
+  let keyed ← rows.mapM fun r => do
+    let kv ← evalList cx (r :: env) keys
+    pure ((List.range keys.length).map (fun i => if set.contains i then kv.getD i .null else .null), r)
+  let groups := if set.isEmpty then [(nulls keys.length, rows)] else groupBy keyed
+  groups.mapM fun (k, g) => do pure (k ++ (← aggGroup cx env aggs g) ++ [.int (groupingMask keys.length set)])
+
+theorem aggregateSets_eq (sets : List (List Nat)) :
+    aggregateSets cx env keys sets aggs rows = (do let parts ← sets.mapM (specPart cx env keys aggs rows); pure parts.flatten) := rfl
+
+theorem evalList_getD : ∀ (es : List Expr) (vs : Row) (e : Env), evalList cx e es = .ok vs →
+    ∀ i, i < es.length → eval cx e (es.getD i (.lit .null)) = .ok (vs.getD i .null)
+  | [], _, _, _, i, hi => by simp at hi
+  | x :: xs, vs, e, h, i, hi => by
+    simp only [evalList] at h
+    cases hx : eval cx e x with
+    | error err => simp [hx] at h; cases h
+    | ok v =>
+      cases hxs : evalList cx e xs with
+      | error err => simp [hx, hxs] at h; cases h
+      | ok vs' =>
+        simp only [hx, hxs] at h
+        have hv : vs = v :: vs' := by cases h; rfl
+        subst hv
+        cases i with
+        | zero => simpa using hx
+        | succ j => simpa using evalList_getD xs vs' e hxs j (by simpa using hi)
+
+theorem evalList_subKeys (kv : Row) (e : Env) (h : evalList cx e keys = .ok kv) : ∀ (set : List Nat), (∀ i, i ∈ set → i < keys.length) →
+    evalList cx e (subKeys keys set) = .ok (selKey set kv)
+  | [], _ => by simp [subKeys, selKey, evalList]
+  | i :: is, hs => by
+    have h1 := evalList_getD cx keys kv e h i (hs i (by simp))
+    have h2 := evalList_subKeys kv e h is (fun j hj => hs j (by simp [hj]))
+    simp only [subKeys, selKey, List.map_cons] at h2 ⊢
+    simp only [evalList, h1, h2]
+    rfl
+
+/-- the key values of a row (meaningful where the keys evaluate) -/
+def kvOf (r : Row) : Row := match evalList cx (r :: env) keys with | .ok kv => kv | .error _ => []
+
+theorem kvOf_spec (r : Row) (h : ∃ kv, evalList cx (r :: env) keys = .ok kv) : evalList cx (r :: env) keys = .ok (kvOf cx env keys r) := by
+  obtain ⟨kv, hkv⟩ := h
+  simp [kvOf, hkv]
+
+theorem specPart_eq_branch (set : List Nat) (hs : GoodSet keys.length set)
+    (hk : ∀ r, r ∈ rows → ∃ kv, evalList cx (r :: env) keys = .ok kv) :
+    specPart cx env keys aggs rows set = branch cx env keys aggs rows set := by
+  have hkeyed : (rows.mapM fun r => do
+      let kv ← evalList cx (r :: env) keys
+      pure ((List.range keys.length).map (fun i => if set.contains i then kv.getD i .null else .null), r)) =
+      .ok (rows.map fun r => (padAll keys.length set (kvOf cx env keys r), r)) := by
+    apply mapM_ok_map
+    intro r hr
+    rw [kvOf_spec cx env keys r (hk r hr)]
+    rfl
+  have hkeyed' : (rows.mapM fun r => do pure ((← evalList cx (r :: env) (subKeys keys set)), r)) =
+      .ok (rows.map fun r => (selKey set (kvOf cx env keys r), r)) := by
+    apply mapM_ok_map
+    intro r hr
+    rw [evalList_subKeys cx keys _ _ (kvOf_spec cx env keys r (hk r hr)) set hs.2]
+    rfl
+  simp only [specPart, hkeyed, branch, aggregate]
+  cases set with
+  | nil =>
+    simp only [subKeys, List.map_nil, List.isEmpty_nil, if_true, List.mapM_cons, List.mapM_nil, List.length_nil, List.take_zero,
+      List.drop_zero, padKey_nil, groupingMask_eq]
+    cases aggGroup cx env aggs rows with
+    | error e => rfl
+    | ok a => rfl
+  | cons i0 is =>
+    have hne : (subKeys keys (i0 :: is)).isEmpty = false := by simp [subKeys]
+    have hne' : (i0 :: is).isEmpty = false := rfl
+    simp only [hne, hne', hkeyed']
+    -- the reference groups by the padded key, the branch by its own key
+    have hmapk : (rows.map fun r => (padAll keys.length (i0 :: is) (kvOf cx env keys r), r)) =
+        (rows.map fun r => (selKey (i0 :: is) (kvOf cx env keys r), r)).map fun x => (padKey keys.length (i0 :: is) x.1, x.2) := by
+      simp [List.map_map, Function.comp_def, padKey_selKey]
+    have hP : ∀ x, x ∈ (rows.map fun r => (selKey (i0 :: is) (kvOf cx env keys r), r)) → x.1.length = (i0 :: is).length := by
+      intro x hx
+      simp only [List.mem_map] at hx
+      obtain ⟨r, _, rfl⟩ := hx
+      simp [selKey]
+    have hinj : ∀ a b : Row, a.length = (i0 :: is).length → b.length = (i0 :: is).length →
+        padKey keys.length (i0 :: is) a = padKey keys.length (i0 :: is) b → a = b :=
+      fun a b ha hb h => padKey_injective keys.length (i0 :: is) hs a b ha hb h
+    have hgroups := groupBy_map (padKey keys.length (i0 :: is)) (fun k => k.length = (i0 :: is).length) hinj _ hP
+    have hkeysG := groupBy_keys (fun k => k.length = (i0 :: is).length) _ hP
+    simp only [if_false, Bool.false_eq_true]
+    rw [hmapk, ok_bind, ok_bind, hgroups, mapM_map_arg]
+    rw [mapM_then_map]
+    apply mapM_congr_mem
+    intro g hg
+    have hlen := hkeysG g hg
+    obtain ⟨k, gr⟩ := g
+    simp only at hlen ⊢
+    cases aggGroup cx env aggs gr with
+    | error e => rfl
+    | ok a =>
+      show Except.ok _ = Except.ok _
+      have hlen' : k.length = is.length + 1 := by simpa using hlen
+      simp [groupingMask_eq, List.take_left' hlen', List.drop_left' hlen']
+
+theorem desugar_eq (sets : List (List Nat)) (hs : ∀ set, set ∈ sets → GoodSet keys.length set)
+    (hk : ∀ r, r ∈ rows → ∃ kv, evalList cx (r :: env) keys = .ok kv) :
+    aggregateSets cx env keys sets aggs rows = desugar cx env keys sets aggs rows := by
+  rw [aggregateSets_eq, desugar]
+  rw [mapM_congr_mem _ _ sets (fun set hset => specPart_eq_branch cx env keys aggs rows set (hs set hset) hk)]
+
+end desugar
 
 end IQE.Lemmas.GroupingSets
